@@ -98,6 +98,10 @@ _add(PF("mi_25519", P25519, 4, "modint", MODINT_CAPS, 32))
 _add(PF("mi_spec1", _limbs(0xFFFFFFFFFFFFFF27, 0xFFFFFFFFFFFFFFFE, 0, 0xFFFFFFFFFFFFFFFF), 4, "modint", MODINT_CAPS, 32))
 _add(PF("mi_spec2", _limbs(0xFFFFFFFFFFFFFF43, M64, M64, M64), 4, "modint", MODINT_CAPS, 32))
 _add(PF("mi_spec3", _limbs(0x20CD9255FD615923, 0xACAFC103CD968A25, 0xFFFFFFFFFFFFFFFE, M64), 4, "modint", MODINT_CAPS, 32))
+# long runs of ones in the low limbs: 2^256 - 2^194 - 1, 2^256 - 143*2^128 - 1, 2^255 + 34*2^192 - 1 (all prime)
+_add(PF("mi_spec4", _limbs(M64, M64, M64, 0xFFFFFFFFFFFFFFFB), 4, "modint", MODINT_CAPS, 32))
+_add(PF("mi_spec5", _limbs(M64, M64, 0xFFFFFFFFFFFFFF70, M64), 4, "modint", MODINT_CAPS, 32))
+_add(PF("mi_spec6", _limbs(M64, M64, M64, 0x8000000000000021), 4, "modint", MODINT_CAPS, 32))
 _add(PF("mi_193", (1 << 192) + 133, 4, "modint", MODINT_CAPS, 25))
 _add(PF("g127", (1 << 127) - 1, 2, "gfgen", GFGEN_CAPS, 16))
 _add(PF("g192", (1 << 192) - (1 << 64) - 1, 3, "gfgen", GFGEN_CAPS, 24))
